@@ -28,6 +28,7 @@ EXTENDS Integers, Sequences, FiniteSets, TLC
 
 CONSTANTS Plans,          \* set of engine plans [id, pools : Seq of pool plans (field kind, n, cause), cancel]
           FixEngCancel,   \* FALSE: pools run on the caller's ctx (negative control)
+          FixEngSelect,   \* FALSE: Run's loop has no `case <-ctx.Done()`, a cancel is noticed only when a pool result arrives (negative control)
           FixReportSelect,\* FALSE: the pool goroutine sends its result without the ctx.Done alternative (negative control)
           FixFirst,       \* FALSE: Run keeps collecting and returns the LAST error (negative control)
           FixWait         \* FALSE: only the first pool is registered in the WaitGroup (negative control)
@@ -92,6 +93,7 @@ EngRecv ==
   /\ UNCHANGED <<plan, cancelReq, userCancel, engDefer, waitRet, poolVars>>
 
 EngCancel ==
+  /\ FixEngSelect
   /\ engRet.k = "none" /\ userCancel
   /\ engRet' = ERet("ctx", 0, "") /\ cancelAtRet' = TRUE
   /\ UNCHANGED <<plan, cancelReq, userCancel, engDefer, engI, engCh, waitRet, recvd, lastErr, poolVars>>
@@ -122,8 +124,10 @@ MayStop(p) == Kind(p) # "long" \/ PoolCtxDone(p)
 
 \* instancePool.Run up to the start of its background tasks (provider Run, aggregator Run, instance starter); a pool of
 \* kind failsync fails before (warm-up, shared schedule): onWaitDone at once, error returned whatever the ctx
+\* plan field block: a context-unaware, slow call in the synchronous part (gun factory / WarmUp / shared schedule
+\* factory) returns only after Engine.Run has returned (see PoolRun.tla)
 PoolStart(p) ==
-  /\ pst[p] = "init"
+  /\ pst[p] = "init" /\ (PP(p).block # "none" => engRet.k # "none")
   /\ IF Kind(p) = "failsync"
      THEN /\ pst' = [pst EXCEPT ![p] = "ret"] /\ pret' = [pret EXCEPT ![p] = Ret("err", PP(p).cause)]
           /\ wd' = [wd EXCEPT ![p] = @ + 1] /\ UNCHANGED <<on, bg, toStart>>
@@ -208,6 +212,9 @@ StopAfterReturn == engDefer => \A p \in Pools : PoolCtxDone(p)
 WaitAfterAll == waitRet => \A p \in Pools : wd[p] = 1 /\ BgDone(p)
 WaitDoneOnce == \A p \in Pools : wd[p] <= 1
 \* liveness
+\* only Engine.Run's own goroutine is scheduled: a cancelled Run returns without anyone else's help
+EngFairSpec == Spec /\ WF_vars(EngStep)
+CancelPromptLive == userCancel ~> (engRet.k # "none")
 RunReturns == <>(engRet.k # "none")
 Termination == (engRet.k # "none") ~> Terminated
 =============================================================================
